@@ -12,14 +12,19 @@ CHECKS = {
         text="Driver.tla models solve/restart/_solve one action per loop stage; TLC checks SolveContract (Contract.tla) on every "
              "bounded scenario; every scenario is replayed through the real solve() of every integrator class via a recording "
              "discretisation and the same contract is evaluated by TLC on what the code returned; the recorded event logs are "
-             "validated as behaviours of Driver.tla (Trace_Driver).",
+             "validated as behaviours of Driver.tla (Trace_Driver). Scenario spaces: save lists x stop dictionaries x start times "
+             "(an instance around the origin of times: start <= 0, stop time exactly 0), multi-call scripts with changing CFL number "
+             "and dtlocal directive; the older solve_legacy driver is specified, replayed and trace-validated too (informational).",
         ref="DESIGN.md section 6 C07, section 3.2"),
     "C08": dict(
         technique="TLA+ model checking of call histories on one solver object with explicit hidden state (TLC) + replay of "
                   "every enumerated script into the real integrators + TLC-judged bitwise relations between histories + trace validation",
         text="Hidden solver state (gear's previous increment, counters, it tags, monitor outputs) is explicit in Driver.tla; TLC "
              "checks purity/repeatability/split=whole/monitor invariants over all scripts of <=3 calls; each script is replayed on "
-             "the real classes with twin runs on fresh objects, and TLC judges bit-equality relations and monitor records.",
+             "the real classes with twin runs on fresh objects, and TLC judges bit-equality relations and monitor records. Calls carry "
+             "a CFL multiplier and the dtlocal directive (nothing of an earlier call may reach a later one); Field.tla (heap model "
+             "of fdata / fieldlist, invariant NoAlias) is model checked and every enumerated operation sequence is replayed on the "
+             "real objects.",
         ref="DESIGN.md section 6 C08"),
 }
 
@@ -37,8 +42,9 @@ CHECKS.update({
                   "TLC-judged defining relations on the real integrators with operators read from the code's own rhs",
         text="Implicit.tla models calc_jacobian / calcrhs / solve_implicit / add_res / gear start-up in exact rationals and TLC "
              "checks the defining relations (backward Euler, Crank-Nicolson, BDF2), conservation, no-growth and FD-Jacobian "
-             "exactness for every small state; the real classes are bound through relation residuals, exact rational amplification "
-             "factors on dyadic z*dt, norm growth and Jacobian-vector products.",
+             "exactness for every small state, with a scalar step and with per-cell steps (D = diag(dt)); the real classes are bound through "
+             "relation residuals on affine operators (direct steps, per-cell dt arrays, and along solve() trajectories), exact "
+             "rational amplification factors on dyadic z*dt, norm growth and an entrywise Jacobian comparison.",
         ref="DESIGN.md section 6 C06"),
 })
 
